@@ -501,6 +501,8 @@ func main() {
 		e2e(os.Args[2:])
 	case "probe":
 		probe(os.Args[2:])
+	case "interleave":
+		interleave(os.Args[2:])
 	default:
 		os.Exit(3)
 	}
